@@ -46,7 +46,10 @@ def handle : List String → Option String
     let present := if choice.isNone then [] else match PresentExt.presentParseIter b with
       | none => []
       | some (gs, _) => (gs.filter fun (g : Bytes × List Bytes) => known.contains g.1).map showGroup
-    let tr := (runAll lpr).map (fun t => s!"prime{t}") ++ [s!"prepare{optStr toString choice}"] ++
+    -- every Prime sees the URI as the earlier ones left it: those with an even tag append `~<tag>` to the query
+    let primes := ((runAll lpr).foldl (fun (acc : List String × String) t =>
+      (acc.1 ++ [s!"prime{t}@{acc.2}"], if t % 2 == 0 then acc.2 ++ s!"~{t}" else acc.2)) ([], "")).1
+    let tr := primes ++ [s!"prepare{optStr toString choice}"] ++
       present.map (fun s => s!"present:{s}") ++ (runAll lpk).map (fun t => s!"package{t}") ++
       (runAll lpo).map (fun t => s!"post{t}")
     pure (listStr tr)
